@@ -213,6 +213,24 @@ Definition fd_solve (mgs_skips exit_on_fail : bool) (P : fd_params) (sts : list 
         mkout rs n n1 lb
   end.
 
+(* A later call of solve() on the SAME object.  What a run leaves behind that steers the next one:
+   the cached lower bound (_lowerbound_k; get_lowerbound_k() is not recomputed, hence no MinGenSet
+   invocations any more) and a solved guessed-weights model (_given_weights_model is only replaced by a
+   solved one).  Nothing else: in particular not at which k, or with which status, the earlier run stopped. *)
+Definition fd_resolve (P : fd_params) (lb : nat) (g0 : option nat) (sts : list raw) : outcome :=
+  if guessed P then
+    match sts with
+    | [] => mkout Starved 0 0 lb
+    | r :: sts2 =>
+        let given := if is_optimal (status_of r) then Some (gw_paths P) else g0 in
+        let '(rs, n) := kloop (fun k => given_match given k || greedy P k) (over P)
+                              (krange lb (upper (upper_excl P) (nedges P))) sts2 1 in
+        mkout rs n 1 lb
+    end
+  else
+    let '(rs, n) := kloop (greedy P) (over P) (krange lb (upper (upper_excl P) (nedges P))) sts 0 in
+    mkout rs n 0 lb.
+
 (* MinFlowDecomp: no elapsed-time exit; MinGenSet failure -> exit(0) (switch) *)
 Definition mfd_solve (mgs_skips exit_on_fail : bool) (P : fd_params) (sts : list raw) : outcome :=
   fd_solve mgs_skips exit_on_fail
@@ -315,6 +333,9 @@ Definition run_mfd (skips exits excl : bool) (lb0 ne : nat) (umgs : bool) (nw cu
 Definition run_mfdc (skips excl : bool) (lb0 ne : nat) (umgs : bool) (nw : nat) (gu : bool) (gw : nat)
   (ov : list bool) (sts : list raw) : outcome :=
   mfdc_solve skips (mkfd lb0 excl ne umgs nw gu gw never (of_list ov)) sts.
+Definition run_fd2 (excl : bool) (lb ne : nat) (gu : bool) (gw : nat) (g0 : option nat)
+  (gr ov : list bool) (sts : list raw) : outcome :=
+  fd_resolve (mkfd lb excl ne false 0 gu gw (of_list gr) (of_list ov)) lb g0 sts.
 Definition run_mpc (excl : bool) (lb ne : nat) (sts : list raw) : outcome := mpc_solve excl lb ne sts.
 Definition run_mpcc (excl : bool) (lb ne : nat) (sts : list raw) : outcome := mpcc_solve excl lb ne sts.
 Definition run_npo (ks km : nat) (ff : bool) (da dr : option Q) (ext : list bool) (obj : list Q)
